@@ -24,6 +24,13 @@ fn main() {
         // threads may be stuck if the run hung: leave without joining them
         std::process::exit(0);
     }
+    if args.len() >= 4 && args[1] == "sched" {
+        // abi sched <plugin.so> <schedule.json>   (one schedule per process: the caches are process-global)
+        std::panic::set_hook(Box::new(|_| {}));
+        let rec: Value = serde_json::from_str(&std::fs::read_to_string(&args[3]).expect("schedule")).expect("json");
+        println!("{}", cache::run_schedule(&rec, &args[2]));
+        std::process::exit(0);
+    }
     if args.len() >= 4 && args[1] == "calls" {
         std::panic::set_hook(Box::new(|_| {}));
         let input = std::fs::File::open(&args[2]).expect("records");
